@@ -1964,7 +1964,11 @@ def rt_c09(tier="quick", first_only=False, count=None):
         case = dict(layer="MaskedAutoregressive", dim=dim, cond_dim=cd, width=width, depth=depth, weights=mode)
         if np.any(np.abs(np.triu(J, 1)) > 0):
             fails.append(dict(what=f"MaskedAutoregressive(dim={dim}, cond_dim={cd}, width={width}, depth={depth}, {mode} weights): output i depends on an input after i, J={J.tolist()}", case=case))
-        # transformer parameters of coordinate i depend only on inputs before i: d/dx_i of (y_i - scale_i * x_i) structure -> the diagonal is the transformer's own derivative
+        # transformer parameters of coordinate i depend only on inputs before i: with an affine transformer dy_i/dx_i is the scale
+        # parameter itself, so it must not change with x_k for any k >= i
+        H = np.asarray(jax.jacobian(lambda v: jnp.diag(jax.jacobian(lambda u: maf.transform(u, c))(v)))(x))
+        if np.any(np.abs(np.triu(H, 0)) > 0):
+            fails.append(dict(what=f"MaskedAutoregressive(dim={dim}, cond_dim={cd}, width={width}, depth={depth}, {mode} weights): the transformer parameters of coordinate i depend on x_k with k >= i (d(dy_i/dx_i)/dx_k = {H.tolist()})", case=case))
         if mode == "positive" and width >= dim and depth >= 1 and dim >= 2:
             Jl = np.tril(J, -1)
             if np.any((np.abs(Jl) == 0) & (np.tril(np.ones_like(J), -1) > 0)):
